@@ -69,3 +69,20 @@ Definition check_c01 (su : SourceUnit) (wall : list (N * N * N)) (wsub : list N)
 Definition stats_c01 (su : SourceUnit) : N * N :=
   let p := pre (N_SourceUnit su) in
   (len p, len (filter (fun t => existsb (fun n => Target_eqb (kind_of n) t) p) all_targets)).
+
+(* the same without the quadratic sub-root part (the harness leaves it out for trees with more than 1500 nodes) *)
+Definition check_c01_nosub (su : SourceUnit) (wall : list (N * N * N))
+           (wsets : list (list (N * N * N))) (wsingle : list N) : list N :=
+  let root := N_SourceUnit su in
+  let m_all := walk allT root in
+  (if list_eqb fp_eqb (map fp m_all) wall then [] else [1]) ++
+  (if list_eqb (list_eqb fp_eqb)
+        (map (fun k => map fp (extract_targets_from_node (filter (subset_sel k) all_targets) root)) [0; 1; 2; 3])
+        wsets then [] else [3]) ++
+  (if list_eqb N.eqb (map (fun t => len (extract_target_from_node t root)) all_targets) wsingle then [] else [4]) ++
+  (if list_eqb fp_eqb (map fp_spec (pre root)) wall then [] else [11]) ++
+  (if list_eqb (list_eqb fp_eqb)
+        (map (fun k => map fp_spec (filter (fun n => subset_sel k (kind_of n)) (pre root))) [0; 1; 2; 3])
+        wsets then [] else [13]) ++
+  (if list_eqb N.eqb (map (fun t => len (filter (fun n => Target_eqb (kind_of n) t) (pre root))) all_targets) wsingle
+   then [] else [14]).
